@@ -1,7 +1,32 @@
 (* The short meaning of each TerminalCommand, as the operations a VT/xterm
    terminal is to perform (specification side of C05).  Written from the
    documentation of the commands (src/terminal.rs doc comments) and of the
-   control functions, not from the encoder. *)
+   control functions, not from the encoder.
+
+   The observable is the LIST OF OPERATIONS the interpreter extracts (cursor,
+   erase, scroll, mode, SGR transformer, OSC/DCS requests), not a screen
+   contents model.
+
+   SPECIFICATION DECISIONS.  Where the documentation of a command leaves its
+   meaning open, the meaning below was FIXED BY US and agrees with what the
+   encoder does today; for these points the theorem is a round trip, not an
+   independent judgement:
+     D1 Title t            = OSC 0 (icon name AND window title), xterm's usual "set title";
+                             OSC 2 (title only) would be reported as a difference
+     D2 ScrollRegion s e   with s >= e (empty or inverted region) = reset the margins (CSI r)
+     D3 KeyboardLevel l    without the kitty keyboard capability = nothing
+     D4 DecModeSet AltScreen also sets the kitty keyboard level (KEYBOARD_LEVEL on entry,
+                             0 on exit) when the capability is present: the alternate
+                             screen has its own keyboard-mode stack
+     D5 colours            alpha is not transmitted (a terminal colour has none); under Gray
+                             the four levels are the system colours 0 < 8 < 7 < 15 (black,
+                             bright black, white, bright white) and an underline colour has
+                             no grey rendering (nothing is sent)
+     D6 CursorMove 0 0, Scroll 0, EraseChars 0, Image, ImageErase = nothing (images are
+                             drawn by the image handlers, not by this encoder)
+     D7 Termcap []         = Termcap [""] (the wire format cannot tell them apart)
+     D8 Char DEL, Char ST  = nothing (a terminal ignores them in ground state)
+     D9 Raw bytes          = whatever the bytes mean (tautological; outside self-containedness) *)
 From Coq Require Import List NArith ZArith Bool.
 From SNT Require Import Encoder.Decimal Encoder.Utf8 Encoder.Encode Encoder.VT.
 Import ListNotations.
